@@ -1,4 +1,31 @@
-pub fn main(_ctx: &rnv_engine::Ctx) -> i32 {
-    eprintln!("not built yet");
-    2
+//! Entry point: C16 (OpenAPI / gRPC auth) and C17 (console session + role enforcement).
+use rnv_engine::Ctx;
+
+pub fn main(ctx: &Ctx) -> i32 {
+    match ctx.id.as_str() {
+        "C16" => crate::c16::main(ctx),
+        "C17" => crate::c17::main(ctx),
+        "ROUTES" => {
+            for r in crate::c16::discover_sdk_routes().unwrap_or_default() {
+                println!("SDK {}", r);
+            }
+            for r in crate::routes::discover(rnacos::web_config::console_config).unwrap_or_default() {
+                println!("CONSOLE {}", r);
+            }
+            0
+        }
+        "PROBE" => {
+            let work = rnv_engine::work_dir(ctx);
+            let cfg = crate::srv::NodeCfg { api_login_ttl_s: 1, console_login_ttl_s: 1, cluster_token: "x".into() };
+            let n = crate::srv::Node::start(&work, "probe", &cfg).unwrap();
+            for i in 0..6 {
+                println!("{} {:?}", i, n.api_login(crate::srv::ADMIN_USER, crate::srv::admin_pass()));
+            }
+            0
+        }
+        other => {
+            eprintln!("unknown property {} (this binary serves C16 and C17)", other);
+            2
+        }
+    }
 }
